@@ -278,6 +278,21 @@ def check_c41_state(w, v: View):
     return out
 
 
+def check_c05_state(w, v: View):
+    out = []
+    for j in v.jobs:
+        if j['update_id'] not in v.committed:
+            continue
+        ps = [v.job_by_id.get(p) for p in v.parents.get(j['job_id'], [])]
+        if j['state'] == 'Pending' and all(p is not None and p['state'] in TERMINAL and p['update_id'] in v.committed for p in ps):
+            out.append(('pending-forever-all-parents-terminal', f"job {j['job_id']} Pending (n_pending_parents={j['n_pending_parents']}) though all parents are terminal; jobs={jobs_brief(v)}"))
+        if j['state'] != 'Pending' and any(p is None or p['state'] not in TERMINAL for p in ps):
+            out.append(('left-pending-before-parents-terminal', f"job {j['job_id']} is {j['state']} with unfinished parents; jobs={jobs_brief(v)}"))
+        if j['state'] in ('Creating', 'Running') and v.job_cancelled(j) and False:
+            pass
+    return out
+
+
 def observe_job_updates(w, log):
     """Row-level observer: records every jobs.state change with the facts the monitors need AT THAT MOMENT
     (sweeps perform several completions in one BFS transition, so before/after diffs are too coarse)."""
@@ -395,16 +410,18 @@ class Family(dbmc.Harness):
             j = v.jobs[0]['job_id']
             if not any(a['attempt_id'] == 'stale1' for a in atts):
                 out.append(('complete', j, 'stale1', 'i1', 'Success', 10, 20))
-        for g in v.groups:
-            out.append(('cancel', g['job_group_id']))
-        for which in ('ready', 'running', 'orphans'):
+        if not self.opts.get('no_cancel'):
+            for g in v.groups:
+                out.append(('cancel', g['job_group_id']))
+        for which in ('ready', 'running', 'orphans') if not self.opts.get('no_cancel') else ('ready',):
             out.append(('canceller', which))
         if self.opts.get('preempt', True):
             for inst in ('i1',):
                 if st[inst] == 'active' and any(a['instance_name'] == inst for a in atts):
                     out.append(('deactivate', inst, 'preempted', 30))
-        out.append(('sweep_staging',))
-        out.append(('sweep_cancellable',))
+        if not self.opts.get('no_sweeps'):
+            out.append(('sweep_staging',))
+            out.append(('sweep_cancellable',))
         if w.token == 0 and self.opts.get('token_flip', True):
             out.append(('token', 1))
         return out
@@ -415,6 +432,8 @@ class Family(dbmc.Harness):
             w.pos += 1
             obs = self._do(w, l)
             obs['request'] = l[0]
+            if obs.get('http', 200) >= 400:
+                w.pos = len(SCRIPTS[w.script])  # a real client stops at the first refused request
             return obs
         return ops.apply(w, label)
 
@@ -434,6 +453,8 @@ class Family(dbmc.Harness):
             out += check_c06_readers(w, v)
         if 'C41' in self.monitors:
             out += check_c41_state(w, v)
+        if 'C05' in self.monitors:
+            out += check_c05_state(w, v)
         return out
 
     def check_transition(self, w, pre, label, obs):
